@@ -171,19 +171,25 @@ def add_query_argument(url, name, value=None, quote=True):
 
 
 def unsplit_netloc(username, password, hostname, port):
-    if username and password:
-        auth = username + ":" + password
-    elif username:
-        auth = username
-    else:
-        auth = None
+    netloc = hostname or ""
 
-    if auth:
-        hostname = auth + "@" + hostname
-    if port:
-        hostname += ":" + str(port)
+    # NOTE: urlsplit strips the brackets of ip literals
+    if ":" in netloc:
+        netloc = "[" + netloc + "]"
 
-    return hostname
+    # NOTE: an empty username or password is not the same as none
+    if username is not None or password is not None:
+        auth = username or ""
+
+        if password is not None:
+            auth += ":" + password
+
+        netloc = auth + "@" + netloc
+
+    if port is not None:
+        netloc += ":" + str(port)
+
+    return netloc
 
 
 def safe_qsl_iter(query):
